@@ -1351,7 +1351,7 @@ Section C03.
           Nat.max ((fix go (l: list sty) : nat := match l with [] => O | t' :: r => Nat.max (need t') (go r) end) pre)
                   (Nat.max (need mid)
                            ((fix go (l: list sty) : nat := match l with [] => O | t' :: r => Nat.max (need t') (go r) end) post))
-      | SNamed c => S (rk c)
+      | SNamed c => match sfind E KNamed c with Some _ => S (rk c) | None => O end
       | _ => O end.
 
     Hypothesis ranked : forall c k, sfind E KNamed c = Some k ->
@@ -1533,17 +1533,82 @@ Section C03.
                          [ apply (Forall_In _ _ IHmide d Hd); apply (Forall_In _ _ (need_mid_elems _ _ Hm) d Hd)
                          | apply (Forall_In _ _ IHpost d Hd); apply (Forall_In _ _ Hq d Hd) ] ] ].
       - (* a NamedTuple class with no fuel left: excluded by the bound *)
-        cbn [need] in Hn. lia.
-      - destruct (sfind E _ c') as [k|] eqn:Ef; [|intros H; discriminate H].
+        cbn [need] in Hn. destruct (sfind E _ c') as [k|]; [lia | intros H; discriminate H].
+      - cbn [need] in Hn. destruct (sfind E _ c') as [k|] eqn:Ef; [|intros H; discriminate H].
         apply nrec_bind; [|intros a H; discriminate H].
         apply nrec_nt_items; [|apply nrec_nt_exhausted].
-        intros f x Hf. apply IHn. cbn [need] in Hn. pose proof (ranked c' k Ef f Hf). lia.
+        intros f x Hf. apply IHn. pose proof (ranked c' k Ef f Hf). lia.
     Qed.
 
     Corollary uk_str_no_recursion t cbn s : (need t <= List.length E)%nat ->
       uk_str E P (List.length E) (cu cbn t) s <> Exn XRecursion.
     Proof. intros Hn. rewrite uk_str_ref. apply (ref_dec_str_no_recursion false _ t s Hn). Qed.
   End Fuel.
+
+  (* ---------------------------------------------------------------- *)
+  (* a computable acyclicity check of the NamedTuple reference graph gives the rank function *)
+  Section Acyclic.
+    (* longest chain of NamedTuple classes a str can descend through below class [c], cut at depth [n] *)
+    Fixpoint rank_n (n: nat) (c: string) : nat :=
+      match n with
+      | O => O
+      | S n' =>
+          match sfind E KNamed c with
+          | Some k => fold_right Nat.max O (map (fun f => need (rank_n n') f.(sf_ty)) k.(sc_fields))
+          | None => O end
+      end.
+
+    (* the ranks computed with depth |E| do not grow any more with depth |E| + 1 (no cycle is being
+       unrolled) and stay below |E| *)
+    Definition acyclic : bool :=
+      let N := List.length E in
+      forallb (fun k => Nat.eqb (rank_n N k.(sc_name)) (rank_n (S N) k.(sc_name)) && (rank_n N k.(sc_name) <? N)%nat) E.
+
+    Lemma sfind_name kd c k : sfind E kd c = Some k -> sc_name k = c.
+    Proof.
+      induction E as [|x E' IH]; cbn [sfind]; [discriminate|].
+      destruct (ckind_eqb (sc_kind x) kd && String.eqb (sc_name x) c) eqn:Eq; [|exact IH].
+      intros H. inversion H; subst. apply andb_prop in Eq. apply String.eqb_eq. apply Eq.
+    Qed.
+
+    Lemma fold_max_ge (l: list nat) x : In x l -> (x <= fold_right Nat.max O l)%nat.
+    Proof. induction l as [|a l IH]; intros H; [destruct H|]. cbn [fold_right]. destruct H as [H|H]; [subst; lia | specialize (IH H); lia]. Qed.
+
+    Hypothesis Hacyc : acyclic = true.
+
+    Lemma acyclic_class c k : sfind E KNamed c = Some k ->
+      rank_n (List.length E) c = rank_n (S (List.length E)) c /\ (rank_n (List.length E) c < List.length E)%nat.
+    Proof.
+      intros Hf. destruct (sfind_In E _ c k Hf) as [Hin _]. pose proof (sfind_name _ _ _ Hf) as Hn.
+      unfold acyclic in Hacyc. cbv zeta in Hacyc. rewrite forallb_forall in Hacyc. specialize (Hacyc k Hin).
+      rewrite Hn in Hacyc. apply andb_prop in Hacyc. destruct Hacyc as [H1 H2].
+      split; [apply Nat.eqb_eq; exact H1 | apply Nat.ltb_lt; exact H2].
+    Qed.
+
+    Lemma acyclic_ranked c k : sfind E KNamed c = Some k ->
+      forall f, In f k.(sc_fields) -> (need (rank_n (List.length E)) f.(sf_ty) <= rank_n (List.length E) c)%nat.
+    Proof.
+      intros Hf f Hin. rewrite (proj1 (acyclic_class c k Hf)). cbn [rank_n]. rewrite Hf.
+      apply fold_max_ge. apply in_map_iff. exists f. split; [reflexivity | exact Hin].
+    Qed.
+
+    Lemma need_list_le rk n (l: list sty) : Forall (fun t => (need rk t <= n)%nat) l ->
+      ((fix go (l: list sty) : nat := match l with [] => O | t' :: r => Nat.max (need rk t') (go r) end) l <= n)%nat.
+    Proof. intros H. induction H as [|t l Ht Hl IH]; [lia|]. lia. Qed.
+
+    Lemma acyclic_bound : forall t, (need (rank_n (List.length E)) t <= List.length E)%nat.
+    Proof.
+      induction t as [ | | | | | | m' | k' | e' | t' IHt | fr' t' IHt | t' IHt | ts IHts | pre IHpre mid IHmid IHmide post IHpost | kt IHkt vt IHvt | t' IHt | c' | c' | c' ]
+        using sty_ind'; cbn [need]; try lia; try exact IHt.
+      - apply need_list_le. exact IHts.
+      - pose proof (need_list_le _ _ _ IHpre). pose proof (need_list_le _ _ _ IHpost). lia.
+      - destruct (sfind E KNamed c') as [k|] eqn:Ef; [|lia]. pose proof (proj2 (acyclic_class c' k Ef)). lia.
+    Qed.
+
+    (* the fuel [List.length E] never runs out on an acyclic table, for any type and any str *)
+    Theorem uk_str_no_recursion_acyclic t cbn s : uk_str E P (List.length E) (cu cbn t) s <> Exn XRecursion.
+    Proof. apply (uk_str_no_recursion (rank_n (List.length E)) acyclic_ranked t cbn s (acyclic_bound t)). Qed.
+  End Acyclic.
 
   Lemma uk_unfold d u : uk E P d u =
       match u with
